@@ -303,6 +303,75 @@ pub fn run(tier: &str) -> i32 {
     let c2 = rep.add_stage("histories", &format!("256 button states x 4 selections x all {} histories of {} actions over 20 letters x {{Joypad API, IO bus}}, P1 and the request judged after every action", total_hist, depth), r2);
     transitions += c2[0];
   }
+  // ---- in the machine: the request has to reach IF whatever the CPU is doing.  A flat Core with
+  // a NOP sled; for every selection, every set of held buttons of a reduced family and every
+  // single press / release / P1 write, one Core::update() with the CPU running, halted and
+  // stopped; IF bit 4 and P1 as the guest reads them through the bus
+  {
+    use crate::emulator::{InterruptState, RunState};
+    let held_sets: [u8; 8] = [0x00, 0x01, 0x10, 0x11, 0x80, 0x0F, 0xF0, 0xA5];
+    let n_cases = (held_sets.len() * 4 * 3) as u64;
+    let opts = PoolOpts { chunk: 1, bitmap_bits: 1 << 12, samples_per_child: 1, ..PoolOpts::default() };
+    let r3 = run_pool(
+      n_cases,
+      &opts,
+      |_| {
+        let mut rom = vec![0u8; 0x8000];
+        rom[0x100..0x150].copy_from_slice(&crate::world::header_bytes(0x00, 0x00, 0x00)[0x100..0x150]);
+        crate::world::flat_core(rom)
+      },
+      |core, case, ctx| {
+        let buttons = held_sets[(case % 8) as usize];
+        let sel = (((case / 8) % 4) as u8) << 4;
+        let run = (case / 32) as usize;
+        let run_name = ["running", "halted", "stopped"][run];
+        ctx.sample(|| J::obj().set("stage", J::s("in-the-machine")).set("buttons", J::u(buttons as u64)).set("sel", J::u(sel as u64)).set("cpu", J::s(run_name)));
+        for a in 0..20usize {
+          let base = Ref { act: buttons & 0x0f, dir: buttons >> 4, sel };
+          let mut next = base;
+          if a < 8 {
+            if a < 4 { next.act |= 1 << a } else { next.dir |= 1 << (a - 4) }
+          } else if a < 16 {
+            let b = a - 8;
+            if b < 4 { next.act &= !(1 << b) } else { next.dir &= !(1 << (b - 4)) }
+          } else {
+            next.sel = ((a - 16) as u8) << 4;
+          }
+          let want_irq = base.lines() & !next.lines() != 0;
+          // state
+          core.memory.io = build_io(buttons, sel);
+          let m = &mut core.memory as *mut crate::mem::MemoryAreas;
+          crate::mem::memory_write_byte(m, 0xFFFF, 0x00); // nothing enabled: the CPU stays where it is
+          crate::mem::memory_write_byte(m, 0xFF0F, 0x00);
+          core.registers.ip = 0x0200;
+          core.registers.sp = 0xDFF0;
+          core.registers.cycles = 0;
+          core.interrupts_enabled = InterruptState::Disabled;
+          core.run_state = match run { 0 => RunState::Run, 1 => RunState::Halt, _ => RunState::Stop };
+          // the event happens between two steps, the way the front end delivers it
+          if a < 8 { core.memory.io.joypad.press_button(button(a)) } else if a < 16 { core.memory.io.joypad.release_button(button(a - 8)) } else { crate::mem::memory_write_byte(m, 0xFF00, ((a - 16) as u8) << 4) }
+          core.update();
+          let got_irq = crate::mem::memory_read_byte(m as *const crate::mem::MemoryAreas, 0xFF0F) & 0x10 != 0;
+          let got_p1 = crate::mem::memory_read_byte(m as *const crate::mem::MemoryAreas, 0xFF00) & 0x3f;
+          ctx.count(0, 1);
+          ctx.class(0x8000 | ((run as u64) << 10) | ((a.min(16) as u64) << 5) | ((want_irq as u64) << 1) | got_irq as u64);
+          if got_irq != want_irq || got_p1 != next.p1() {
+            let aclass = if a < 8 { "press" } else if a < 16 { "release" } else { "select" };
+            let key = if got_p1 != next.p1() { format!("C17 machine cpu={} action={} field=p1", run_name, aclass) } else { format!("C17 machine cpu={} action={} field=irq kind={}", run_name, aclass, if want_irq { "missed" } else { "spurious" }) };
+            ctx.violation(&key, || {
+              J::obj()
+                .set("case", J::obj().set("buttons", J::u(buttons as u64)).set("sel", J::u(sel as u64)).set("cpu", J::s(run_name)).set("action", J::u(a as u64)).set("how", J::s("state built on IO, IE = 0, event delivered, one Core::update(), IF and P1 read through the bus")))
+                .set("expected", J::obj().set("p1", J::u(next.p1() as u64)).set("irq", J::Bool(want_irq)))
+                .set("observed", J::obj().set("p1", J::u(got_p1 as u64)).set("irq", J::Bool(got_irq)))
+            });
+          }
+        }
+      },
+      |case, how| (format!("C17 machine crash={}", how), J::obj().set("case", J::u(case))),
+    );
+    let c3 = rep.add_stage("in-the-machine", "8 sets of held buttons x 4 selections x CPU {running, halted, stopped} x (8 presses + 8 releases + 4 P1 writes): the event is delivered to the IO of a real Core, one Core::update() follows, IF bit 4 and P1 are read through the bus", r3);
+    transitions += c3[0];
+  }
   // power-on state
   {
     let j = Joypad::new();
